@@ -89,6 +89,21 @@ func c05Build(p *chk.Prog, r *chk.Report) {
 			adLoop = l
 		}
 	}
+	// or over the advertisements that select this node, collected once into a list beforehand
+	preSelected := false
+	if ipLoop != nil && adLoop == nil {
+		isAdvs := func(e ast.Expr) bool {
+			return f.MatchWith("P.BGPAdvertisements", e, chk.H("P", isParam(f, "pool"))) != nil
+		}
+		selectsMe := func(el func(ast.Expr) bool, pos bool) chk.Guard {
+			return g.GPat(pos, "A.Nodes[RECV.myNode]", chk.H("A", el))
+		}
+		for _, l := range f.RangeLoops(func(e ast.Expr) bool { return filteredList(f, g, e, isAdvs, selectsMe) }) {
+			if chk.InBody(ipLoop, l) {
+				adLoop, preSelected = l, true
+			}
+		}
+	}
 	if ipLoop == nil || adLoop == nil {
 		x.Fail("SetBalancer:loops", f.Pos(), "no nested loops over lbIPs and pool.BGPAdvertisements")
 		return
@@ -102,8 +117,12 @@ func c05Build(p *chk.Prog, r *chk.Report) {
 	st := stores[0]
 	adVar := st.Node.(*ast.AssignStmt).Rhs[0].(*ast.CallExpr).Args[1]
 	selects := g.GPat(true, "A.Nodes[RECV.myNode]", chk.H("A", adc))
-	x.Check("SetBalancer:ad:node-selected", st.Pos(), g.Dominated(st, selects), "", "an advertisement that does not select this node produces a route")
-	skip := loopSkipsWithout(g, adLoop, func(n ast.Node) bool { return n == st.Top }, g.GPat(false, "A.Nodes[RECV.myNode]", chk.H("A", adc)))
+	x.Check("SetBalancer:ad:node-selected", st.Pos(), preSelected || g.Dominated(st, selects), "", "an advertisement that does not select this node produces a route")
+	notSel := g.GPat(false, "A.Nodes[RECV.myNode]", chk.H("A", adc))
+	if preSelected {
+		notSel = chk.NoGuard // every element of the list selects the node: none may be skipped
+	}
+	skip := loopSkipsWithout(g, adLoop, func(n ast.Node) bool { return n == st.Top }, notSel)
 	x.Check("SetBalancer:ad:every-selected-pair", adLoop.Pos(), !skip && !loopHasBreak(g, adLoop), "", "an (address, advertisement) pair that selects this node can be skipped")
 	x.Check("SetBalancer:ad:every-address", ipLoop.Pos(), !loopHasBreak(g, ipLoop) && !loopSkipsWithout(g, ipLoop, func(n ast.Node) bool { return n == ast.Node(adLoop.X) }, chk.NoGuard), "", "an address of the service can be skipped")
 	// the literal
